@@ -60,7 +60,7 @@ PROPERTIES["C14"] = {
     "level_note": "Trusted: the harness ontology (sim/worlds/oworld.py), CPython reference counting and gc.collect() as the only reclamation events (automatic cyclic GC disabled), rustworkx index recycling as it is. Inferred list fields are compared as multisets (their order is not part of this property). Probes read SymbolGraph private indexes but never decide.",
     "technique": "deterministic simulation: scheduled reference drops / gc / sweep / clear as faults, differential oracle (suffix alone vs after prefix) in forked processes, ddmin-minimised replay",
     "tiers": {
-        "quick": {"runs": 8000, "wall_s": 150, "triage_s": 60},
+        "quick": {"runs": 5000, "wall_s": 150, "triage_s": 60},
         "thorough": {"runs": 500000, "wall_s": 3000, "triage_s": 300},
     },
     "cfg": {},
